@@ -155,7 +155,19 @@ def run_check(prop, tier):
     # 1. tie to source: translators, proof cone
     tr_ok, tr_log = core.run_translators()
     proof_ok, pinfo = check_proof(prop) if tr_ok else (False, {"obligations": 0, "discharged": 0, "why": "translator failed: " + tr_log[-1500:], "axioms": [], "theorems": []})
-    log(f"[{prop.id}] proof cone: ok={proof_ok} obligations={pinfo.get('obligations')} {pinfo.get('why','')}")
+    if proof_ok and tier == "thorough":
+        # independent re-check of the compiled cone, and the axioms it relies on
+        mod = "V." + prop.props_file[:-2].replace("/", ".")
+        with core.Lock("coq"):
+            rc, out = core.sh(["coqchk", "-o", "-silent", "-Q", core.COQ, "V", mod], cwd=core.COQ, timeout=1500)
+        m = re.search(r"\* Axioms:\s*(.*?)\n\s*\n", out, re.S)
+        ax = (m.group(1).strip() if m else "?")
+        pinfo["coqchk"] = {"rc": rc, "axioms": ax}
+        allowed = ax == "<none>" or all(a.strip().split()[0] in prop.allowed_axioms for a in ax.splitlines() if a.strip())
+        if rc != 0 or not allowed:
+            proof_ok = False; pinfo["discharged"] = 0
+            pinfo["why"] = f"coqchk rc={rc} axioms={ax[:200]}"; pinfo["failed_at"] = "coqchk: " + out[-600:]
+    log(f"[{prop.id}] proof cone: ok={proof_ok} obligations={pinfo.get('obligations')} {pinfo.get('why','')} {pinfo.get('coqchk','')}")
     # 2. executable model + implementation
     rok, rlog = core.build_runner()
     hok, hlog = core.build_harness()
@@ -246,7 +258,7 @@ def run_check(prop, tier):
         "traces_validated_against_impl": total,
         "rule": getattr(prop, "rule", ""), "samples": samples or [{"note": "no cases run"}],
         "per_stream": per_stream, "known_finding_classes_hit": sorted(known_hits),
-        "proof_ok": proof_ok, "exhaustive": False,
+        "proof_ok": proof_ok, "exhaustive": False, "coqchk": pinfo.get("coqchk", "not run in this tier (thorough only)"),
     }
     extra = getattr(prop, "extra_coverage", None)
     if extra: cov.update(extra)
